@@ -5,6 +5,7 @@ package db
 import (
 	"context"
 	"fmt"
+	"os"
 	"sort"
 	"strings"
 	"testing"
@@ -980,6 +981,10 @@ func TestVerifC18(t *testing.T) {
 	rnd := vNewRand(vSeed())
 	fl := &c18Failer{rec: rec, n: map[string]int{}}
 	defer func() { rec.Extra("monitor_failures_by_signature", fl.n) }()
+	if os.Getenv("VERIF_C18_ONLY") == "run" { // development aid: only the streams of verif_c18_run_test.go
+		c18RunStreams(t, rec, fl, rnd)
+		return
+	}
 	allUsers := []string{"u0", "u1", "u2"}
 	users := []c18User{{Name: "u0", Ch: []string{"A"}, Roles: []string{"r1"}}, {Name: "u1"}, {Name: "u2", Ch: []string{"B"}}}
 	roles := []c18Role{{Name: "r0", Ch: []string{"E"}}, {Name: "r1", Ch: []string{"F"}}}
@@ -1037,4 +1042,7 @@ func TestVerifC18(t *testing.T) {
 	for i := 0; i < m; i++ {
 		c18Run(t, rec, fl, "adversarial", c18GenCase(rnd, true))
 	}
+
+	// ---- (d) the run as an interruptible process: verif_c18_run_test.go ----
+	c18RunStreams(t, rec, fl, rnd)
 }
